@@ -221,6 +221,16 @@ fn add_relations(t: &mut Tape<'_>, c: &mut CmdSpec, exp: Option<&ExpLevel>) {
             return;
         }
     }
+    if !env_only.is_empty() && !line.is_empty() && c.groups.is_empty() && t.chance(1, 8) {
+        // a group (members may occur together) with one member from the command line and one from the environment:
+        // the group is as present as its most explicit member
+        let x = c.args[*t.pick(&line)].id.clone();
+        let y = t.pick(&env_only).clone();
+        if x != y {
+            c.groups.push(vmodel::GroupSpec { id: "mixgrp".to_owned(), args: vec![y, x], multiple: true, ..Default::default() });
+            return;
+        }
+    }
     if !env_only.is_empty() && !line.is_empty() && t.chance(1, 6) {
         let x = *t.pick(&line);
         let y = t.pick(&env_only).clone();
@@ -514,6 +524,45 @@ impl Property for Sources {
                         }
                     }
                     Origin::EnvInvalid => {}
+                }
+            }
+            // a group is as present as its most explicit member (command line > environment; defaults are not presence)
+            for g in &lvspec.groups {
+                let strongest = g
+                    .args
+                    .iter()
+                    .filter_map(|mid| match origins.get(mid) {
+                        Some(Origin::CommandLine) => Some(2),
+                        Some(Origin::Env(_)) => Some(1),
+                        _ => None,
+                    })
+                    .max();
+                let want = match strongest {
+                    Some(2) => Some(clap::parser::ValueSource::CommandLine),
+                    Some(_) => Some(clap::parser::ValueSource::EnvVariable),
+                    None => None,
+                };
+                let mut lm = &m;
+                for (lv, _) in levels.iter().take(li) {
+                    let _ = lv;
+                    match lm.subcommand() {
+                        Some((_, sm)) => lm = sm,
+                        None => break,
+                    }
+                }
+                let got = lm.value_source(&g.id);
+                ensure!(
+                    got == want,
+                    "sources:group-source",
+                    "argv {:?}: level {li} group {:?} (members {:?}) should report source {:?}, reports {:?}",
+                    case.argv,
+                    g.id,
+                    g.args,
+                    want,
+                    got
+                );
+                if g.args.iter().filter(|mid| matches!(origins.get(*mid), Some(Origin::CommandLine) | Some(Origin::Env(_)))).count() >= 2 {
+                    ctx.label("group-with-members-of-two-origins");
                 }
             }
             if o.args_present != any_explicit {
